@@ -8,11 +8,12 @@ import SqLemmas.SetLen
 namespace SqProps.C03
 open Sq SqProps.C13
 
-/-- **a successful index assignment had room**: if `c[k] = v` returns for a container object `a`, then `a` had fewer than
-    10000 elements and has at most 10000 now (a list keeps its length, a dict gains at most one entry) -/
-theorem setitem_success_within_cap (s : BState) (a : Nat) (k v r : Val) (s' : BState)
+/-- what a successful `c[k] = v` does to the heap: the operand copy extends it (`HeapExt`: every existing object as it was),
+    then the container object alone is replaced, by an object of at most 10000 elements; the container had fewer before -/
+theorem setitem_heap_shape (s : BState) (a : Nat) (k v r : Val) (s' : BState)
     (h : bSetItem s (.ref a) k v = .ok (r, s')) :
-    objLen (s.heap.get? a) < maxArraySize ∧ objLen (s'.heap.get? a) ≤ maxArraySize := by
+    objLen (s.heap.get? a) < maxArraySize ∧ a < s.heap.size ∧
+    ∃ h' o, HeapExt s.heap h' ∧ s'.heap = h'.set a o ∧ objLen (some o) ≤ maxArraySize := by
   unfold bSetItem at h
   split at h
   · cases h
@@ -26,22 +27,22 @@ theorem setitem_success_within_cap (s : BState) (a : Nat) (k v r : Val) (s' : BS
         cases o with
         | list xs => simp only at hc; split at hc; cases hc; exact ⟨by simp only [objLen]; omega, rfl⟩
         | dict kvs => simp only at hc; split at hc; cases hc; exact ⟨by simp only [objLen]; omega, rfl⟩
-    refine ⟨hlen.1, ?_⟩
+    have hlt : a < s.heap.size := by
+      cases hg : s.heap.get? a with
+      | none => rw [hg] at hlen; cases hlen.2
+      | some o =>
+        unfold Heap.get? at hg
+        by_cases hlt : a < s.heap.size
+        · exact hlt
+        · have : s.heap[a]? = none := Array.getElem?_eq_none (by omega)
+          rw [this] at hg; cases hg
+    refine ⟨hlen.1, hlt, ?_⟩
     split at h
     · cases h
     · split at h
       · cases h
       · rename_i v' h' hd
         have hx := SqProps.C12.deepcopy'_frame _ _ _ _ hd
-        have hlt : a < s.heap.size := by
-          cases hg : s.heap.get? a with
-          | none => rw [hg] at hlen; cases hlen.2
-          | some o =>
-            unfold Heap.get? at hg
-            by_cases hlt : a < s.heap.size
-            · exact hlt
-            · have : s.heap[a]? = none := Array.getElem?_eq_none (by omega)
-              rw [this] at hg; cases hg
         have hsame : h'.get? a = s.heap.get? a := hx.2 a hlt
         split at h
         · rename_i s2 hp
@@ -62,10 +63,8 @@ theorem setitem_success_within_cap (s : BState) (a : Nat) (k v r : Val) (s' : BS
               · split at hp
                 · split at hp
                   · cases hp
-                    simp only [get?_set]
-                    split
-                    · simp only [objLen, List.length_set]; have := hlen.1; simp only [objLen] at this; omega
-                    · rw [hsame, hg]; have := hlen.1; omega
+                    refine ⟨h', _, hx, rfl, ?_⟩
+                    simp only [objLen, List.length_set]; have := hlen.1; simp only [objLen] at this; omega
                   · cases hp
                 · cases hp
             | dict kvs =>
@@ -76,12 +75,38 @@ theorem setitem_success_within_cap (s : BState) (a : Nat) (k v r : Val) (s' : BS
                 · rename_i kvs' hds
                   cases hp
                   have hl := dictSet_length_le _ _ _ _ _ hds
-                  simp only [get?_set]
-                  split
-                  · simp only [objLen]; have := hlen.1; simp only [objLen] at this; omega
-                  · rw [hsame, hg]; have := hlen.1; omega
+                  refine ⟨h', _, hx, rfl, ?_⟩
+                  simp only [objLen]; have := hlen.1; simp only [objLen] at this; omega
                 · cases hp
         · cases h
+
+/-- **a successful index assignment had room**: if `c[k] = v` returns for a container object `a`, then `a` had fewer than
+    10000 elements and has at most 10000 now (a list keeps its length, a dict gains at most one entry) -/
+theorem setitem_success_within_cap (s : BState) (a : Nat) (k v r : Val) (s' : BState)
+    (h : bSetItem s (.ref a) k v = .ok (r, s')) :
+    objLen (s.heap.get? a) < maxArraySize ∧ objLen (s'.heap.get? a) ≤ maxArraySize := by
+  obtain ⟨h1, hlt, h', o, hx, hs, ho⟩ := setitem_heap_shape s a k v r s' h
+  refine ⟨h1, ?_⟩
+  rw [hs, get?_set]
+  have : a < h'.size := Nat.lt_of_lt_of_le hlt hx.1
+  simp only [this, and_self, if_true]
+  exact ho
+
+/-- … and it takes no object that existed before beyond `max 10000 (its length before)`: every other existing object is
+    exactly as it was (the operand is copied into NEW objects) -/
+theorem setitem_keeps_existing_objects_within_cap (s : BState) (a : Nat) (k v r : Val) (s' : BState)
+    (h : bSetItem s (.ref a) k v = .ok (r, s')) (b : Nat) (hb : b < s.heap.size) :
+    objLen (s'.heap.get? b) ≤ max maxArraySize (objLen (s.heap.get? b)) ∧ (b ≠ a → s'.heap.get? b = s.heap.get? b) := by
+  obtain ⟨h1, hlt, h', o, hx, hs, ho⟩ := setitem_heap_shape s a k v r s' h
+  rw [hs, get?_set]
+  by_cases hab : a = b
+  · subst hab
+    have : a < h'.size := Nat.lt_of_lt_of_le hlt hx.1
+    simp only [this, and_self, if_true]
+    exact ⟨by omega, fun hne => absurd rfl hne⟩
+  · simp only [hab, false_and, if_false]
+    rw [hx.2 b hb]
+    exact ⟨by omega, fun _ => rfl⟩
 
 /-- non-vacuity: `d["k"] = 1` on an empty dict object succeeds -/
 example : ∃ r s', bSetItem { heap := #[.dict []], rng := 0, rx := [] } (.ref 0) (.str ['k']) (.int 1) = .ok (r, s') :=
